@@ -17,8 +17,8 @@
    Exceptions do not roll anything back: every operation is a state transformer
    returning the state reached when the exception left the method.
 
-   cfg selects, for the two repaired defects, the code as found (false) or the code
-   after work/C15/fix-F-C15a.diff / fix-F-C15b.diff (true).  No proofs here. *)
+   cfg selects, per defect, the code as found (false) or the code after
+   work/C15/fix-F-C15a.diff / fix-F-C15b.diff / fix-F-C15c.diff (true).  No proofs here. *)
 From Coq Require Import ZArith List Bool.
 From EV Require Import Res.
 Import ListNotations.
@@ -100,7 +100,9 @@ Definition set_py_cols s v := mkState (next_id s) (h5_root s) (h5_grp s) (fld_ty
 Definition set_py_valid s v := mkState (next_id s) (h5_root s) (h5_grp s) (fld_type s) (fld_data s) (py_dfs s) (py_name s) (py_ds s) (py_cols s) v (py_fdf s).
 Definition set_py_fdf s v := mkState (next_id s) (h5_root s) (h5_grp s) (fld_type s) (fld_data s) (py_dfs s) (py_name s) (py_ds s) (py_cols s) (py_valid s) v.
 
-Record cfg := mkCfg { fix_a : bool; fix_b : bool }.
+Record cfg := mkCfg { fix_a : bool; fix_b : bool; fix_c : bool }.
+
+Definition NONE : Z := -1.   (* Python None where an object id is expected *)
 
 (* ------------------------------------------------------------------ state monad with exceptions *)
 Definition M (A:Type) := state -> state * res A.
@@ -209,14 +211,16 @@ Definition df_getitem (g:Z) (n:name) : M Z := fun s =>
                                group.create_group(name)  (DataFrame.create_group -> self._h5group.create_group)
         attrs, empty 'values'
      field = <Type>Field(session, self._h5group[name], self, write_enabled=True)
+        (IndexedStringField.__init__ as found overwrites self._dataframe with None: F-C15c)
      self._columns[name] = field *)
-Definition df_create_field (g:Z) (n:name) (t:Z) : M Z :=
+Definition T_INDEXED : Z := 1.
+Definition df_create_field (c:cfg) (g:Z) (n:name) (t:Z) : M Z :=
   run s0 <-- mget ;;
   if d_mem (py_cols s0 g) n then raise E_ValueError
   else
     run f <-- h5_create (TGrp g) n ;;
     exec modify (fun s => set_fld_data (set_fld_type s (fupd (fld_type s) f t)) (fupd (fld_data s) f [])) ;;
-    exec modify (fun s => set_py_fdf (set_py_valid s (fupd (py_valid s) f true)) (fupd (py_fdf s) f g)) ;;
+    exec modify (fun s => set_py_fdf (set_py_valid s (fupd (py_valid s) f true)) (fupd (py_fdf s) f (if (t =? T_INDEXED) && negb (fix_c c) then NONE else g))) ;;
     exec modify (fun s => set_py_cols s (fupd (py_cols s) g (d_set (py_cols s g) n f))) ;;
     ret f.
 
@@ -226,10 +230,10 @@ Definition field_write (f:Z) (dat:list Z) : M unit :=
 
 (* nfield = field.create_like(ddf, name)   [ts = source.timestamp -> _ensure_valid; ddf.create_<type>(name,...)]
    if field.indexed: ... nfield.data.write(field.data[:]) *)
-Definition copy_field_into (f:Z) (g:Z) (n:name) : M Z :=
+Definition copy_field_into (c:cfg) (f:Z) (g:Z) (n:name) : M Z :=
   exec field_ensure_valid f ;;
   run s0 <-- mget ;;
-  run nf <-- df_create_field g n (fld_type s0 f) ;;
+  run nf <-- df_create_field c g n (fld_type s0 f) ;;
   exec field_ensure_valid f ;;
   run s1 <-- mget ;;
   exec field_write nf (fld_data s1 f) ;;
@@ -241,14 +245,14 @@ Definition cols_del (g:Z) (n:name) : M unit :=
   modify (fun s => set_py_cols s (fupd (py_cols s) g (d_del (py_cols s g) n))).
 
 (* DataFrame.add(field) *)
-Definition df_add (g:Z) (f:Z) : M unit :=
+Definition df_add (c:cfg) (g:Z) (f:Z) : M unit :=
   run dname <-- field_name f ;;
-  run nf <-- copy_field_into f g dname ;;
+  run nf <-- copy_field_into c f g dname ;;
   cols_set g dname nf.
 
 (* DataFrame.__setitem__(name, field) *)
-Definition df_setitem (g:Z) (n:name) (f:Z) : M unit :=
-  run nf <-- copy_field_into f g n ;;
+Definition df_setitem (c:cfg) (g:Z) (n:name) (f:Z) : M unit :=
+  run nf <-- copy_field_into c f g n ;;
   cols_set g n nf.
 
 (* DataFrame.__delitem__(name) *)
@@ -336,26 +340,28 @@ Definition df_rename (c:cfg) (g:Z) (dict_:ndict) : M unit :=
 (* ---- module functions dataframe.copy / dataframe.move *)
 (* copy(field, ddf, name): ddf.columns is a *copy* of _columns, so `ddf.columns[name] = dfield`
    changes nothing; create_like already registered the field *)
-Definition edf_copy (f:Z) (g:Z) (n:name) : M Z :=
-  exec copy_field_into f g n ;; df_getitem g n.
+Definition edf_copy (c:cfg) (f:Z) (g:Z) (n:name) : M Z :=
+  exec copy_field_into c f g n ;; df_getitem g n.
 
 Definition edf_move (c:cfg) (f:Z) (g:Z) (n:name) : M Z :=
   run fd <-- field_dataframe f ;;
   if fd =? g then
     run cur <-- field_name f ;; exec df_rename c g [(cur, n)] ;; ret f
   else
-    exec edf_copy f g n ;;
+    exec edf_copy c f g n ;;
     run sg <-- field_dataframe f ;;
+    (* field.dataframe.drop(field.name): None has no attribute 'drop' *)
+    if sg =? NONE then raise E_Attr else
     run cur <-- field_name f ;;
     exec df_drop sg cur ;;
     exec modify (fun s => set_py_valid s (fupd (py_valid s) f false)) ;;
     df_getitem g n.
 
 (* ------------------------------------------------------------------ dataset.py : HDF5Dataset *)
-Fixpoint copy_all (items:alist) (g:Z) : M unit :=
+Fixpoint copy_all (c:cfg) (items:alist) (g:Z) : M unit :=
   match items with
   | [] => ret tt
-  | (k, v) :: t => exec copy_field_into v g k ;; copy_all t g
+  | (k, v) :: t => exec copy_field_into c v g k ;; copy_all c t g
   end.
 
 Definition dfs_set (i:Z) (n:name) (g:Z) : M unit :=
@@ -364,33 +370,33 @@ Definition dfs_del (i:Z) (n:name) : M unit :=
   modify (fun s => set_py_dfs s (fupd (py_dfs s) i (d_del (py_dfs s i) n))).
 
 (* Dataset.create_dataframe(name, dataframe=None) *)
-Definition ds_create_dataframe (i:Z) (n:name) (src:option Z) : M Z :=
+Definition ds_create_dataframe (c:cfg) (i:Z) (n:name) (src:option Z) : M Z :=
   run g <-- h5_create (TRoot i) n ;;
   (* HDF5DataFrame(self, name, h5group): _columns filled from h5group.keys() (a new group: none) *)
   exec modify (fun s => set_py_cols (set_py_ds (set_py_name s (fupd (py_name s) g n)) (fupd (py_ds s) g i))
                                     (fupd (py_cols s) g [])) ;;
   exec (match src with
-        | Some sg => run s1 <-- mget ;; copy_all (py_cols s1 sg) g
+        | Some sg => run s1 <-- mget ;; copy_all c (py_cols s1 sg) g
         | None => ret tt
         end) ;;
   exec dfs_set i n g ;;
   ret g.
 
-Definition ds_require_dataframe (i:Z) (n:name) : M Z :=
+Definition ds_require_dataframe (c:cfg) (i:Z) (n:name) : M Z :=
   run s0 <-- mget ;;
   match d_find (py_dfs s0 i) n with
   | Some g => ret g
-  | None => ds_create_dataframe i n None
+  | None => ds_create_dataframe c i n None
   end.
 
 (* module function dataset.copy(dataframe, dataset, name) *)
-Definition eds_copy (sg:Z) (j:Z) (n:name) : M unit :=
+Definition eds_copy (c:cfg) (sg:Z) (j:Z) (n:name) : M unit :=
   run s0 <-- mget ;;
   if d_mem (py_dfs s0 j) n then raise E_ValueError
   else
-    run g <-- ds_create_dataframe j n None ;;
+    run g <-- ds_create_dataframe c j n None ;;
     run s1 <-- mget ;;
-    exec copy_all (py_cols s1 sg) g ;;
+    exec copy_all c (py_cols s1 sg) g ;;
     dfs_set j n g.
 
 (* Dataset.drop(name) *)
@@ -400,8 +406,8 @@ Definition ds_drop (i:Z) (n:name) : M unit :=
   else exec dfs_del i n ;; h5_del (TRoot i) n.
 
 (* module function dataset.move(dataframe, dataset, name) *)
-Definition eds_move (sg:Z) (j:Z) (n:name) : M unit :=
-  exec eds_copy sg j n ;;
+Definition eds_move (c:cfg) (sg:Z) (j:Z) (n:name) : M unit :=
+  exec eds_copy c sg j n ;;
   run s1 <-- mget ;;
   ds_drop (py_ds s1 sg) (py_name s1 sg).
 
@@ -432,7 +438,7 @@ Definition ds_setitem (c:cfg) (j:Z) (n:name) (sg:Z) : M unit :=
       exec modify (fun s => set_py_name s (fupd (py_name s) sg n)) ;;
       exec dfs_set j n sg ;;
       h5_move_path j sg n
-  else eds_copy sg j n.
+  else eds_copy c sg j n.
 
 (* ------------------------------------------------------------------ operations of a history *)
 Inductive op :=
@@ -457,20 +463,20 @@ Inductive op :=
 
 Definition step (c:cfg) (o:op) : M unit :=
   match o with
-  | OCreate i d n t dat => run g <-- ds_getitem i d ;; run f <-- df_create_field g n t ;; field_write f dat
-  | OSetItem i d n j d' n' => run sg <-- ds_getitem j d' ;; run f <-- df_getitem sg n' ;; run g <-- ds_getitem i d ;; df_setitem g n f
-  | OAdd i d j d' n' => run g <-- ds_getitem i d ;; run sg <-- ds_getitem j d' ;; run f <-- df_getitem sg n' ;; df_add g f
+  | OCreate i d n t dat => run g <-- ds_getitem i d ;; run f <-- df_create_field c g n t ;; field_write f dat
+  | OSetItem i d n j d' n' => run sg <-- ds_getitem j d' ;; run f <-- df_getitem sg n' ;; run g <-- ds_getitem i d ;; df_setitem c g n f
+  | OAdd i d j d' n' => run g <-- ds_getitem i d ;; run sg <-- ds_getitem j d' ;; run f <-- df_getitem sg n' ;; df_add c g f
   | ODelItem i d n => run g <-- ds_getitem i d ;; df_delitem g n
   | ODrop i d n => run g <-- ds_getitem i d ;; df_drop g n
   | ODeleteField i d j d' n' => run g <-- ds_getitem i d ;; run sg <-- ds_getitem j d' ;; run f <-- df_getitem sg n' ;; df_delete_field g f
   | ORename i d m => run g <-- ds_getitem i d ;; df_rename c g m
-  | OFCopy i d n j d' n' => run sg <-- ds_getitem i d ;; run f <-- df_getitem sg n ;; run g <-- ds_getitem j d' ;; exec edf_copy f g n' ;; ret tt
+  | OFCopy i d n j d' n' => run sg <-- ds_getitem i d ;; run f <-- df_getitem sg n ;; run g <-- ds_getitem j d' ;; exec edf_copy c f g n' ;; ret tt
   | OFMove i d n j d' n' => run sg <-- ds_getitem i d ;; run f <-- df_getitem sg n ;; run g <-- ds_getitem j d' ;; exec edf_move c f g n' ;; ret tt
-  | OCreateDF i d => exec ds_create_dataframe i d None ;; ret tt
-  | OCreateDFFrom i d j d' => run sg <-- ds_getitem j d' ;; exec ds_create_dataframe i d (Some sg) ;; ret tt
-  | ORequireDF i d => exec ds_require_dataframe i d ;; ret tt
-  | ODSCopy i d j d' => run sg <-- ds_getitem i d ;; eds_copy sg j d'
-  | ODSMove i d j d' => run sg <-- ds_getitem i d ;; eds_move sg j d'
+  | OCreateDF i d => exec ds_create_dataframe c i d None ;; ret tt
+  | OCreateDFFrom i d j d' => run sg <-- ds_getitem j d' ;; exec ds_create_dataframe c i d (Some sg) ;; ret tt
+  | ORequireDF i d => exec ds_require_dataframe c i d ;; ret tt
+  | ODSCopy i d j d' => run sg <-- ds_getitem i d ;; eds_copy c sg j d'
+  | ODSMove i d j d' => run sg <-- ds_getitem i d ;; eds_move c sg j d'
   | ODSSetItem j d' i d => run sg <-- ds_getitem i d ;; ds_setitem c j d' sg
   | ODSDelItem i d => ds_delitem i d
   | ODSDrop i d => ds_drop i d
